@@ -10,7 +10,7 @@ from ..gen import random_plan, rand_fraction, enc_amount
 from ..models import si_table as SI
 from ..models.world import predefined_world
 from ..oracle import brief
-from ..ops import derived
+from ..ops import derived, rogue_converter_sub
 
 RULE = ("triples of same-type quantities built to collide: equal across "
         "units, near-ties (+-1e-30 relative), Decimal/Fraction twins, "
@@ -305,6 +305,10 @@ def run(chk, R, tier, seed):
         planj = [d.to_json() for d in plan]
         wid = "world%d" % wi
         subs = [triple_sub(chk, rng, ww, wid, planj) for _ in range(8)]
+        if wi % 3 == 0:
+            rs = rogue_converter_sub(chk, rng, ww)
+            if rs:
+                subs.insert(0, rs)
         for t in ww.types.values():
             us = [u.sym for u in ww.units_of(t.name)]
             for s1 in us:
